@@ -26,6 +26,25 @@ class OutsideSubset(Exception):
 _counter = itertools.count()
 
 
+def qforall(vs, body, patterns=None):
+  """ForAll with explicit triggers when z3 accepts them (patterns may not contain ite etc.)."""
+  def has_ite(e, seen):
+    if e.get_id() in seen:
+      return False
+    seen.add(e.get_id())
+    if z3.is_app_of(e, z3.Z3_OP_ITE):
+      return True
+    return any(has_ite(c, seen) for c in e.children())
+  if patterns and any(has_ite(p, set()) for p in patterns if not isinstance(p, z3.PatternRef)):
+    patterns = None
+  if patterns:
+    try:
+      return z3.ForAll(vs, body, patterns=patterns)
+    except z3.Z3Exception:
+      pass
+  return z3.ForAll(vs, body)
+
+
 def fresh_name(hint='v'):
   return f'{hint}!{next(_counter)}'
 
@@ -144,6 +163,8 @@ class Opaque(Sort):
     self.name = name
     self.nullable = nullable  # python None is a value of this sort (a distinguished literal)
     self.is_str = is_str      # values are python strings (affects str(), `in`)
+    self.attrs = {}           # attribute name -> (Sort, wf: term -> [facts]) : pure observers (e.g. ndarray.ndim)
+    self.pytypes = None
     self.universe = universe  # native enumeration universe
     self.infinite = infinite
     self._lits = {}
